@@ -141,10 +141,12 @@ def run_controls(prop_id, controls, repo_root):
                     shutil.copy(os.path.join(repo_root, f), tmp)
             path = os.path.join(tmp, rel)
             src = open(path).read()
-            if old not in src:
-                out.append({"name": name, "verdict": "not-applicable", "detail": "text to mutate not found"})
+            from pyvc.textmut import mutate
+            mutated, why = mutate(src, old, new)
+            if mutated is None:
+                out.append({"name": name, "verdict": "not-applicable", "detail": why})
                 continue
-            open(path, "w").write(src.replace(old, new, 1))
+            open(path, "w").write(mutated)
             p = subprocess.run([sys.executable, "-m", "pyvc.runner", prop_id, "--tier", "quick", "--repo", tmp],
                                capture_output=True, text=True, cwd=VERIF,
                                env=dict(os.environ, PYVC_NO_EVIDENCE="1", PYTHONPATH=VERIF))
@@ -177,7 +179,10 @@ def finish(prop_id, tier, seed, mod, plan, reports, t0, relock, repo_root):
             lock_all = json.load(f)
     locked = set(lock_all.get(prop_id, []))
     if relock:
-        lock_all[prop_id] = sorted(n for n, s in status.items() if s in ("discharged", "known"))
+        # an obligation may opt out of the lock (`nolock`: generated in the thorough tier only, so its absence
+        # from a quick run is not a disappearance)
+        lock_all[prop_id] = sorted(n for n, s in status.items() if s in ("discharged", "known")
+                                   and not any(i.get("nolock") for i in groups[n]))
         with open(LOCK, "w") as f:
             json.dump(lock_all, f, indent=1, sort_keys=True)
         locked = set(lock_all[prop_id])
@@ -208,7 +213,13 @@ def finish(prop_id, tier, seed, mod, plan, reports, t0, relock, repo_root):
         replay_prog = getattr(mod, "REPLAY", None)
         with open(path, "w") as f:
             json.dump(rec, f, indent=1, default=str)
-        if replay_prog:
+        pre = bad.get("native_replay")
+        if isinstance(pre, dict):
+            # the producer of the obligation (extra_checks) already replayed it natively, many cases in one
+            # process; `path` is still a self-contained input of mod.REPLAY for a replay by hand
+            rec["native"] = pre
+            reproduced = bool(pre.get("reproduced"))
+        elif replay_prog:
             try:
                 p = subprocess.run([NATIVE_PY, os.path.join(VERIF, replay_prog), path, repo_root],
                                    capture_output=True, text=True, timeout=900, cwd=repo_root,
@@ -327,6 +338,8 @@ def finish(prop_id, tier, seed, mod, plan, reports, t0, relock, repo_root):
           "wall_s": round(time.time() - t0, 2), "violations": len(violations)}
     if plan.get("controls") is not None:
         cov["negative_controls"] = plan["controls"]
+    for k, v in (plan.get("coverage_extra") or {}).items():      # measured extras of extra_checks (never overrides)
+        cov.setdefault(k, v)
     if not os.environ.get("PYVC_NO_EVIDENCE"):
         evdir = os.environ.get("PYVC_EVIDENCE_DIR", os.path.join(VERIF, "evidence"))
         os.makedirs(evdir, exist_ok=True)
